@@ -178,6 +178,48 @@ def check_attribute_kinds(t, shape, m):
                     got = outcome(mod.findall_by_attr, nodes[start], value, name=name)
                     judge(t, "%s.findall_by_attr(name=%r)" % (modname, name), ("ok", exp), got, idm, ctx)
                     t.c["attribute_kind_queries"] += 1
+    # "equals value" is ==, nothing else: a NaN stored on a node does not equal the very same NaN object
+    nan = float("nan")
+    nodes = [anytree.AnyNode(score=(nan if i % 2 == 0 else 1.5)) for i in range(m.n)]
+    for i in range(m.n):
+        if m.par[i] is not None:
+            nodes[i].parent = nodes[m.par[i]]
+    idm = tree.IdMap(nodes)
+    for mod, modname in ((search, "search"), (cachedsearch, "cachedsearch")):
+        judge(t, "%s.findall_by_attr(value=<the same nan object>)" % modname, ("ok", []),
+              outcome(mod.findall_by_attr, nodes[0], nan, name="score"), idm, {"shape": shape, "node_class": "AnyNode with NaN attribute"})
+        judge(t, "%s.find_by_attr(value=<the same nan object>)" % modname, ("ok", None),
+              outcome(mod.find_by_attr, nodes[0], nan, name="score"), idm, {"shape": shape, "node_class": "AnyNode with NaN attribute"})
+        t.c["attribute_kind_queries"] += 2
+    # stateful predicates: filter_ / stop are asked in ONE pre-order pass (a "first of every kind" filter with a seen-set)
+    nodes = [anytree.AnyNode(kind="k%d" % (i % 2)) for i in range(m.n)]
+    for i in range(m.n):
+        if m.par[i] is not None:
+            nodes[i].parent = nodes[m.par[i]]
+    idm = tree.IdMap(nodes)
+
+    def first_of_kind():
+        seen = set()
+
+        def f(nd):
+            if nd.kind in seen:
+                return False
+            seen.add(nd.kind)
+            return True
+        return f
+    firsts = []
+    kinds_seen = set()
+    for v in m.pre(0):
+        if v % 2 not in kinds_seen:
+            kinds_seen.add(v % 2)
+            firsts.append(v)
+    for mod, modname in ((search, "search"), (cachedsearch, "cachedsearch")):
+        judge(t, "%s.findall(stateful first-of-kind filter)" % modname, ("ok", firsts),
+              outcome(mod.findall, nodes[0], filter_=first_of_kind()), idm, {"shape": shape, "node_class": "stateful filter"})
+        expf = ("ok", firsts[0]) if len(firsts) == 1 else ("CountError", (1, len(firsts)))
+        judge(t, "%s.find(stateful first-of-kind filter)" % modname, expf,
+              outcome(mod.find, nodes[0], filter_=first_of_kind()), idm, {"shape": shape, "node_class": "stateful filter"})
+        t.c["attribute_kind_queries"] += 2
     # an attribute NAME is just a name: dots in it are not a path
     nodes = [anytree.AnyNode(**{"meta.id": i % 2, "id": "n%d" % i}) for i in range(m.n)]
     for i in range(m.n):
